@@ -55,6 +55,10 @@ type c13Params struct {
 	// LateMs (first-use): writer 0 makes its first call only this many milliseconds of virtual time after the others
 	// (network latency is one millisecond: it arrives while some flight of the handshake is being processed)
 	LateMs int `json:"late_ms,omitempty"`
+	// Kick (tlcp, established): one more task sets the read deadline into the past and clears it again,
+	// several times, while the readers are at work; a reader that is told "timeout" simply reads again. No byte
+	// may get lost over it (records arrive in pieces when Seg is 1)
+	Kick bool `json:"kick,omitempty"`
 }
 
 func (c13) ID() string    { return "C13" }
@@ -134,6 +138,10 @@ func drawC13(src *vs.Src) *c13Params {
 		if p.Stack == TLCP && src.Bool(1, 2) {
 			p.Stack = DTLCP
 		}
+	}
+	if p.Stack == TLCP && p.Scenario == "established" && src.Bool(1, 2) {
+		// (not with first-use: a read deadline that expires inside the handshake fails the handshake, as it should)
+		p.Kick, p.Seg = true, 1
 	}
 	if p.Scenario == "close-blocked" && src.Bool(1, 3) {
 		// the write deadline, set by another task, expires while Writes are blocked in a full transport; it is
@@ -359,6 +367,7 @@ func (c13) Run(c *Case, src *vs.Src) *Result {
 				if small {
 					buf = make([]byte, 20)
 				}
+				kicked := 0
 				for {
 					if p.Scenario != "close-race" && !p.SmallRead && takeInbound(&inboundLeft) == false {
 						return
@@ -368,10 +377,15 @@ func (c13) Run(c *Case, src *vs.Src) *Result {
 					}
 					var n int
 					var err error
+				again:
 					if small {
 						n, err = utEP.Read(buf)
 					} else {
 						n, err = ut.Read(buf)
+					}
+					if err != nil && n == 0 && p.Kick && isTimeout(err) && kicked < 200 {
+						kicked++ // somebody else's deadline: read again (the same frame is still due)
+						goto again
 					}
 					if p.SmallRead && err != nil && isTimeout(err) {
 						return // nothing arrives any more
@@ -404,6 +418,22 @@ func (c13) Run(c *Case, src *vs.Src) *Result {
 					utEP.SetReadDeadline(time.Time{})
 					t.HSErr = ut.Handshake()
 					t.HSDone = true
+				}
+			})
+		}
+		if p.Kick {
+			t := newTask("ut-kicker")
+			w.Go(t.Name, func() {
+				defer func() { t.Done = true }()
+				for k := 0; k < 6; k++ {
+					for i := 0; i <= p.CloseAt%4; i++ {
+						vs.Yield()
+					}
+					utEP.SetReadDeadline(vs.Now().Add(-time.Second))
+					for i := 0; i <= (p.CloseAt+k)%3; i++ {
+						vs.Yield()
+					}
+					utEP.SetReadDeadline(time.Time{})
 				}
 			})
 		}
